@@ -251,6 +251,9 @@ class LoaderBase(ABC):
             Subtomogram(s) of given index.
         """
         tasks = self.construct_loading_tasks(output_shape=output_shape)
+        if isinstance(idx, np.ndarray) and idx.ndim > 0:
+            # an index array is an iterable of indices (it also has ``__index__``)
+            idx = idx.tolist()
         if isinstance(idx, SupportsIndex):
             return tasks[idx].compute()
         elif isinstance(idx, slice):
